@@ -528,6 +528,25 @@ func assignParentValueT(
 	return false
 }
 
+// SetOwnValueT stores a value in the class's own slot. Unlike SetValueT it does not look
+// for a slot of the same name in the parent classes first: a declaration made for a class
+// belongs to that class, whatever its parents declare.
+func SetOwnValueT(
+	frame string,
+	class string,
+	method string,
+	variable string,
+	t *T,
+	isStatic bool,
+) {
+
+	if len(variable) > 0 && variable[0] == '*' {
+		variable = variable[1:]
+	}
+
+	TFrame[valueTFrameKey(frame, class, method, variable, isStatic)] = t
+}
+
 func SetValueT(
 	frame string,
 	class string,
